@@ -357,7 +357,7 @@ def _expected(name, vals, nodata):
 
 # the aggregated feature's name: ordinary, or a legal name that resembles the documented pseudo-feature 'uid'
 # (a substring or a superstring of it, another case)
-FEATURE_NAMES = ["v", "id", "u", "d", "ui", "i", "uid2", "UID", "V", "v", "xy", "zt", "dx"]
+FEATURE_NAMES = ["v", "id", "u", "d", "ui", "i", "uid2", "UID", "V", "v", "xy", "zt", "dx", "tid", "base", "size"]
 
 
 def _fname(case):
